@@ -28,8 +28,12 @@ static inline void ByteVec_resize(ByteVec* v, size_t n)      /* VERIF_STUB: with
 {
 #ifdef VERIF_CBMC
     __CPROVER_assert(n <= v->cap, "resize within ghost capacity");
-#endif
+    /* no loop (symex would unwind it without bound): the storage from the old size to the end of the ghost capacity is zeroed;
+     * bytes at or beyond the new size are not part of the vector's value */
+    if (n > v->size && v->size < v->cap) __CPROVER_array_set(v->data + v->size, (unsigned char)0);
+#else
     for (size_t i = v->size; i < n && i < v->cap; i++) v->data[i] = 0;
+#endif
     v->size = n;
 }
 #endif
